@@ -196,11 +196,45 @@ func injective(t *core.Term) (bool, string) {
 		}
 		return false, "operator " + t.Name + " on the ttl is not injective: " + t.String()
 	}
+	// a module helper: every return path must be injective in the ttl it is given, and which path is taken must not depend on the ttl
+	if t.Op == "call" && c06prog != nil {
+		if g := c06prog.Func(t.Name); g != nil && len(g.Blocks) > 0 && len(g.Params) == len(t.Args) {
+			if rps, ok := core.ReturnPaths(c06prog, g, 200); ok && len(rps) > 0 {
+				sub := func(x *core.Term) *core.Term {
+					if x.Op == "param" {
+						for i, p := range g.Params {
+							if p.Name() == x.Name {
+								return t.Args[i]
+							}
+						}
+					}
+					return nil
+				}
+				for _, rp := range rps {
+					if !core.Feasible(rp.Atoms) || len(rp.Results) != 1 {
+						continue
+					}
+					for _, a := range rp.Atoms {
+						if mentionsTTL(a.Cond.Subst(sub)) {
+							return false, "helper " + t.Name + " selects its result by a test on the ttl (" + a.String() + "): two ttls can be mapped to one identifier"
+						}
+					}
+					if ok, why := injective(rp.Results[0].Subst(sub)); !ok {
+						return false, why
+					}
+				}
+				return true, ""
+			}
+		}
+	}
 	return false, "not an affine function of ttl: " + t.String()
 }
 
+var c06prog *core.Prog
+
 func runC06(c *Ctx) {
 	R := c.R
+	c06prog = c.P
 	nbuilders := 0
 	for _, d := range Drivers(c.P) {
 		roles := roleTable[d.Name]
